@@ -448,7 +448,7 @@ def _prov_space(gtype, envs):
 
 def gen_prov(tier, seed0):
     seeds = [1000 * seed0]
-    nets = [n for n in _networks(2) if n[1]][:2] if tier == "quick" else [n for n in _networks(2) if n[1]]
+    nets = [n for n in _networks(2) if n[1]][:2]
     pairs = [(i, j) for i in range(len(CHSTT_FORMS)) for j in range(len(CHSTT_FORMS))]
     sub = [(i, (i + 2) % 6) for i in range(6)]         # quick: the operations on a sub-family of the flag pairs
     for si, (gtype, envs, nenv) in enumerate(PROV_SPACES):
@@ -514,8 +514,9 @@ def check_prov(case):
                 out.append(("C03:compute_dstatedt:flagged-entry-nonzero", "%s: entry %d is chemostated, derivative %.6g" % (how, q, a[q])))
                 break
         _cmp_entries("compute_dstatedt", a, f, sc, chem, out)
-        a2 = [float(v) for v in kinetics.compute_dstatedt(system, apply_chemostats=False).value]
-        _cmp_entries("compute_dstatedt(apply_chemostats=False)", a2, f2, sc2, [0] * n, out)
+        if case["mode"] == "generated":      # (the pure-Python kinetics is the cost of these cases)
+            a2 = [float(v) for v in kinetics.compute_dstatedt(system, apply_chemostats=False).value]
+            _cmp_entries("compute_dstatedt(apply_chemostats=False)", a2, f2, sc2, [0] * n, out)
     except Exception as e:
         out.append(("C03:compute_dstatedt:unexpected-exception", "%s: %s: %s" % (how, type(e).__name__, e)))
     try:
@@ -668,7 +669,7 @@ def _work(job):
                 acc.violation("C03" + key[3:], what, case)
             continue
         res = check_case(case)
-        nflag = sum(case["spec"]["chemostats"])
+        nflag = sum(case["spec"].get("chemostats") or [])
         nruns = 1 + 2 * len(case["seeds"])
         if case.get("prov"):
             exp = prov_expected(case)
@@ -764,7 +765,7 @@ def run(ctx):
                  "{a:T,b:F,default:T}} (all 36 pairs); map in effect: generated by the system; generated then edited with set_chemostat "
                  "against the species flag (each entry in turn, values 0 / 1 / True / 5; all entries); explicit all-zero / complement / "
                  "rotated map given to RDSystem over truthy species flags; reset_chemostats; explicit then set_default_chemostats "
-                 "(quick: the operations on 6 of the 36 pairs, networks alternate; thorough: everything x 3 networks): system.chemostats "
+                 "(quick: the operations on 6 of the 36 pairs, networks alternate; thorough: everything x 2 networks; unmasked mode on the generated maps): system.chemostats "
                  "vs the documented map, compute_dstatedt (both modes), compute_dspeciesdt per entry, make_dxdtf (single cell), "
                  "apply_reaction, 2 steps of Euler / tau-leap, <= 24 Gillespie events", nprov,
                  nprov if done == len(_CASES) else 0, exhaustive=(done == len(_CASES)))
